@@ -105,21 +105,29 @@ pub fn run(tier: &str) -> Result<Report, String> {
     }
     // 1d. sets whose BDD is large as data (child process)
     {
-        let j = json!({"kind": "c01big", "model": "synthetic:pairs16"});
-        match crate::jobs::run(&j, if quick { 60.0 } else { 600.0 }) {
-            crate::jobs::JobResult::Done(v) => {
-                if let Some(e) = v.get("error") {
-                    return Err(format!("large-BDD job: {e}"));
+        // one child process per case, so that one slow evaluation cannot hide the others behind a wall limit
+        use rayon::prelude::*;
+        let results: Vec<(usize, crate::jobs::JobResult)> = (0..BIG_CASES).into_par_iter().map(|i| (i, crate::jobs::run(&json!({"kind": "c01big", "model": "synthetic:pairs16", "index": i}), if quick { 45.0 } else { 600.0 }))).collect();
+        let mut done = 0u64;
+        let mut nodes = json!(null);
+        for (i, r) in results {
+            match r {
+                crate::jobs::JobResult::Done(v) => {
+                    if let Some(e) = v.get("error") {
+                        return Err(format!("large-BDD job: {e}"));
+                    }
+                    done += v["cases"].as_u64().unwrap_or(0);
+                    nodes = v["bdd_nodes_of_p"].clone();
+                    for p in v["problems"].as_array().cloned().unwrap_or_default() {
+                        rep.violations.push(crate::report::Violation { case: json!({"kind": "c01big", "model": "synthetic:pairs16", "index": i}), what: format!("on synthetic:pairs16 (32 frozen variables, p = AND_i (a_i <=> b_i), {} BDD nodes): {}", v["bdd_nodes_of_p"], p["what"].as_str().unwrap_or("")), size: 70 });
+                    }
                 }
-                rep.evaluations += v["cases"].as_u64().unwrap_or(0);
-                for p in v["problems"].as_array().cloned().unwrap_or_default() {
-                    rep.violations.push(crate::report::Violation { case: json!({"kind": "c01big", "model": "synthetic:pairs16", "only": p["case"]}), what: format!("on synthetic:pairs16 (32 frozen variables, p = AND_i (a_i <=> b_i), {} BDD nodes): {}", v["bdd_nodes_of_p"], p["what"].as_str().unwrap_or("")), size: 70 });
-                }
-                parts.push(json!({"part": "large BDD sets", "model": "synthetic:pairs16", "bdd_nodes_of_p": v["bdd_nodes_of_p"], "closed_form_cases": v["cases"], "wall_s": v["wall_s"]}));
+                crate::jobs::JobResult::Timeout => rep.cap(format!("large-BDD case {i} exceeded its wall limit and was stopped (no verdict)")),
+                crate::jobs::JobResult::Crashed(e) => return Err(format!("large-BDD job crashed: {e}")),
             }
-            crate::jobs::JobResult::Timeout => rep.cap("large-BDD job exceeded its wall limit and was stopped (no verdict)".to_string()),
-            crate::jobs::JobResult::Crashed(e) => return Err(format!("large-BDD job crashed: {e}")),
         }
+        rep.evaluations += done;
+        parts.push(json!({"part": "large BDD sets", "model": "synthetic:pairs16", "bdd_nodes_of_p": nodes, "closed_form_cases_done": done}));
     }
     // 1b. the multi-formula entry points: every ordered pair of the plain pool as a batch, each
     //     position compared with the oracle (the batch variants are entry points as well)
@@ -262,9 +270,15 @@ pub fn job(job: &serde_json::Value) -> serde_json::Value {
     ];
     let mut problems = vec![];
     let mut n = 0u64;
-    for (text, want) in &cases {
+    assert_eq!(cases.len(), BIG_CASES);
+    for (ci, (text, want)) in cases.iter().enumerate() {
         if let Some(o) = only {
             if o != text {
+                continue;
+            }
+        }
+        if let Some(i) = job["index"].as_u64() {
+            if i as usize != ci {
                 continue;
             }
         }
@@ -283,8 +297,10 @@ pub fn job(job: &serde_json::Value) -> serde_json::Value {
     json!({"cases": n, "problems": problems, "variables": g.num_vars(), "bdd_nodes_of_p": nodes, "wall_s": t0.elapsed().as_secs_f64()})
 }
 
+pub const BIG_CASES: usize = 13;
+
 pub fn replay_big(case: &serde_json::Value) -> Option<String> {
-    let v = job(&json!({"kind": "c01big", "model": case["model"], "only": case["only"]}));
+    let v = job(&json!({"kind": "c01big", "model": case["model"], "only": case["only"], "index": case["index"]}));
     if let Some(e) = v.get("error") {
         return Some(format!("job error: {e}"));
     }
